@@ -104,6 +104,16 @@ pub fn special_images(v: &dyn Var, rng: &mut Rng) -> Vec<Vec<u8>> {
         }
         out.push(a);
     }
+    // bodies of decimal nibbles with ONE letter nibble per 16-byte block (first / middle / last byte, high / low)
+    for pos in [0usize, 7, 8, 15] {
+        for hi in [true, false] {
+            let mut a = image(v, rng);
+            for i in hdr..n {
+                a[i] = if (i - hdr) % 16 == pos { if hi { 0xc5 } else { 0x5c } } else { 0x35 };
+            }
+            out.push(a);
+        }
+    }
     // uniform images (every byte the same) with unequal nibbles
     for x in [0x1bu8, 0xe4, 0x5a, 0x07, rng.byte()] {
         let mut u = vec![x; n];
